@@ -2,7 +2,7 @@
    protocol trace for one (configuration, hint, object, draw), compared with what the harness
    observed on beartype.  Evaluated by vm_compute in generated case files.  No proofs. *)
 From Coq Require Import List ZArith Bool Arith String.
-From BT Require Import Gen.ClassTable Gen.SignSets Gen.Templates Core.PyVal Core.Expr Core.Hint.
+From BT Require Import Gen.ClassTable Gen.SignSets Gen.Templates Core.PyVal Core.Expr Core.Hint Core.Check.
 Import ListNotations.
 Local Open Scope list_scope.
 
@@ -53,7 +53,15 @@ Definition check_case (spied : list nat) (k : case) : bool :=
   && list_eqb pair_eqb
        (tokens spied (trace_of (k_draw k) no_preds (check_expr {| is_random := k_random k |} (k_hint k)) (k_val k)))
        (k_trace k)
-  && match k_sat k with Some b => Bool.eqb (sat (k_hint k) (k_val k)) b | None => true end.
+  && match k_sat k with Some b => Bool.eqb (sat (k_hint k) (k_val k)) b | None => true end
+  (* generated objects are well-formed and the functional reading [chk] agrees (both are
+     theorems' hypotheses/statements; evaluated here as a cross-check) *)
+  && wf (k_val k)
+  && match model_verdict k with
+     | VTrue => check {| is_random := k_random k |} (k_draw k) (k_hint k) (k_val k)
+     | VFalse => negb (check {| is_random := k_random k |} (k_draw k) (k_hint k) (k_val k))
+     | VExc => false
+     end.
 
 Fixpoint failing_from (i : nat) (f : case -> bool) (ks : list case) : list nat :=
   match ks with
